@@ -107,19 +107,28 @@ def sib6(ctx, pid):
     odd_t = ("bin", "%", ("len", raw), C(2))
     table = {}
     probs = []
+    # the nibbles without their terminator: the helper, or its two arms spelled out under the terminator test
+    raw_forms = {None: {raw}, True: {raw, ("slice", nib, None, C(-1)), ("call", "ext:tuple", (("slice", nib, None, C(-1)),), ())},
+                 False: {raw, nib, ("call", "ext:tuple", (nib,), ())}}
+
+    def is_odd_term(x):
+        return x[0] == "bin" and x[1] == "%" and x[3] == C(2) and x[2][0] == "len" and any(x[2][1] in v for v in raw_forms.values())
     for p, st in pq.states(ctx, enc):
         if p.exit[0] != "return":
             continue
         conds = {}
+        raw_used = set()
         for t, pol, _ in st.log:
             tt, pp = truth_norm(t, pol)
             if tt == term_t:
                 conds["term"] = pp
-            elif tt == odd_t:
+            elif is_odd_term(tt):
                 conds["odd"] = pp
-            elif tt[0] == "cmp" and tt[2] == odd_t and is_c(tt[3]):
+                raw_used.add(tt[2][1])
+            elif tt[0] == "cmp" and is_odd_term(tt[2]) and is_c(tt[3]):
                 r = rel_norm(tt, pp)
                 conds["odd"] = (r[0] == "==" and r[2] == C(1)) or (r[0] == "!=" and r[2] == C(0))
+                raw_used.add(tt[2][2][1])
             else:
                 probs.append("uninterpreted condition `%s`" % tstr(tt)[:50])
         ret = st.ret
@@ -128,12 +137,19 @@ def sib6(ctx, pid):
             probs.append("the encoder does not return nibbles_to_bytes(flagged nibbles)")
             continue
         fl = ret[2][0]
-        # tuple(chain((prefix...), raw))
+        # tuple(chain((prefix...), raw)) or (prefix...) + raw
         inner = fl[2][0] if fl[0] == "call" and fl[1] == "ext:tuple" and fl[2] else fl
-        if not (inner[0] == "call" and inner[1] == "ext:itertools.chain" and len(inner[2]) == 2 and inner[2][1] == raw):
+        allowed = raw_forms[conds.get("term")]
+        if inner[0] == "call" and inner[1] == "ext:itertools.chain" and len(inner[2]) == 2 and inner[2][1] in allowed:
+            pre, used = inner[2][0], inner[2][1]
+        elif inner[0] == "bin" and inner[1] == "+" and inner[3] in allowed:
+            pre, used = inner[2], inner[3]
+        else:
             probs.append("flagged nibbles are `%s`, expected chain(prefix, nibbles without terminator)" % tstr(fl)[:60])
             continue
-        pre = inner[2][0]
+        if any(u not in allowed for u in raw_used):
+            probs.append("the parity is taken of `%s`, which is not the nibbles without their terminator on this path" % tstr(sorted(raw_used, key=str)[0])[:50])
+            continue
         if pre[0] == "tuple" and all(is_c(x) for x in pre[1]):
             pre = tuple(x[1] for x in pre[1])
         elif is_c(pre):
@@ -801,6 +817,20 @@ def sib7b(ctx, pid):
                             writer_wrong = "yields %s when `%s & %s` is %s" % (val.value, bv, wv, pol)
                     pol = None
         writer_ok = shape and seen_y[True] > 0 and seen_y[False] > 0 and writer_wrong is None
+        if not writer_ok and writer_wrong is None:
+            # second spelling: the bit itself is yielded - `yield bool(b & w)`, `yield b & w != 0`, `yield b & w > 0`
+            ys = [n for n in ast.walk(inner[0]) if isinstance(n, ast.Yield)]
+            band = ("%s&%s" % (bv, wv), "%s&%s" % (wv, bv))
+
+            def is_bit(v):
+                if isinstance(v, ast.Call) and isinstance(v.func, ast.Name) and v.func.id == "bool" and len(v.args) == 1 and not v.keywords:
+                    return ast.unparse(v.args[0]).replace(" ", "") in band
+                if isinstance(v, ast.Compare) and len(v.ops) == 1 and isinstance(v.ops[0], (ast.NotEq, ast.Gt)) and isinstance(v.comparators[0], ast.Constant) \
+                        and v.comparators[0].value == 0 and type(v.comparators[0].value) is int:
+                    return ast.unparse(v.left).replace(" ", "").strip("()") in band
+                return False
+            if len(ys) == 1 and ys[0].value is not None and is_bit(ys[0].value) and not any(isinstance(n, ast.Yield) for n in ast.walk(f.node) if n is not ys[0]):
+                writer_ok = True
     g = ctx.P.func(B + "decode_from_bin")
     gsrc = util.alpha_src(g)
     reader_ok = "partition_all(8,%s)" % g.params[0] in gsrc and "sum((2**v1*v2for(v1,v2)inenumerate(reversed(v0))))" in gsrc.replace("forv1,v2in", "for(v1,v2)in")
